@@ -492,7 +492,7 @@ def gen_op(rng):
 
 def gen_case(rng, depth):
     start = T.rand_spec(rng, max_r=4, max_c=4, values=rng.choice(['counts', 'small', 'signed', 'dyadic']),
-                        md=rng.choice(['none', 'group', 'group', 'text', 'obs', 'samp']), alphabet=rng.choice(['short', 'short', 'punct', 'latin1']))
+                        md=rng.choice(['none', 'group', 'group', 'text', 'obs', 'samp', 'partial']), alphabet=rng.choice(['short', 'short', 'punct', 'latin1']))
     aux = [T.rand_spec(rng, max_r=3, max_c=3, values='counts', md=rng.choice(['none', 'group']), alphabet='short',
                        opfx=rng.choice(['o', 'p']), spfx=rng.choice(['s', 'q'])) for _ in range(2)]
     return {'start': start, 'aux': aux, 'ops': [gen_op(rng) for _ in range(rng.randint(1, depth))]}
